@@ -62,6 +62,13 @@ def sequences(L, first):
             seq.append(op)
             rec(seq, nopen + 1)      # may fail to open; handled at run time
             seq.pop()
+        if nopen >= 1 and "G" not in seq and len(seq) < L - 1:
+            # the same Terminal object is looked at again by a parallel
+            # user (gentle_initialize: re-reads EEPROM and sync managers)
+            # while mappings are live
+            seq.append("G")
+            rec(seq, nopen)
+            seq.pop()
         for i in range(nopen):
             # normal end, end by an exception raised in the body, end with
             # a faulted switch-off datagram (working counter 0)
@@ -87,7 +94,12 @@ def next_logical(addr, k):
 
 
 def run_seq(n, seq, addr="distinct"):
-    t = bus.SimTerminal("T", station=9, fmmus=n)
+    img = bytearray(b"\0" * 16) + struct.pack("<IIII", 2, 0x99, 1, 5)
+    img += bytes(128 - len(img)) + b"\xff" * 24
+    t = bus.SimTerminal("T", station=9, fmmus=n, eeprom=bytes(img))
+    t.al_state = 2
+    struct.pack_into("<HHBBBB", t.mem, 0x810, 0x1000, 4, 0x24, 0, 1, 0)
+    struct.pack_into("<HHBBBB", t.mem, 0x818, 0x1100, 6, 0x20, 0, 1, 0)
     b = bus.Bus([t])
     trace = []
 
@@ -104,7 +116,13 @@ def run_seq(n, seq, addr="distinct"):
         for step, op in enumerate(seq):
             mark = len(t.events)
             before = list(term.fmmu_used)
-            if op in ("R", "W"):
+            if op == "G":
+                try:
+                    await term.gentle_initialize(absolute=9)
+                    outcome = ("gentle",)
+                except Exception as ex:
+                    outcome = ("gentle-failed", repr(ex))
+            elif op in ("R", "W"):
                 logical = next_logical(addr, nopened)
                 nopened += 1
                 cm = term.map_fmmu(logical, op == "W")
@@ -183,6 +201,16 @@ def check_trace(n, trace):
                         f"{lstart:#x} type {typ} act {act}, expected "
                         f"{lg:#x}"), maxlive
             live[idx] = lg
+        elif out[0] == "gentle":
+            if st["after"] != st["before"]:
+                return (f"step {k}: gentle_initialize changed the slot table "
+                        f"{st['before']} -> {st['after']} while mappings "
+                        f"were live"), maxlive
+            if st["fmmu_writes"]:
+                return (f"step {k}: gentle_initialize wrote FMMU registers "
+                        f"of live mappings"), maxlive
+        elif out[0] == "gentle-failed":
+            return f"step {k}: gentle_initialize raised {out[1]}", maxlive
         elif out[0] == "failed":
             if st["after"] != st["before"]:
                 return f"step {k}: failed open changed the slot table", \
